@@ -23,7 +23,7 @@ InstSet == CASE InstSetName = "two" -> Two [] InstSetName = "three" -> Three [] 
                                       I("Zip", "ZipWith3", 4), I("Zip", "ZipWith4", 5), I("Zip", "ZipWith5", 6), I("Race", "Race", 4)} [] InstSetName = "ticks" -> {I("ThrottleWhen", "ThrottleWhen", 2), I("SampleWhen", "SampleWhen", 2), I("BufferWhen", "BufferWhen", 2), I("WindowWhen", "WindowWhen", 2)} [] InstSetName = "zip3" -> {I("Zip", "Zip3", 3), I("Zip", "ZipWith2", 3)} [] OTHER -> Two \cup Three
 
 NoSync == {[s |-> 0, k |-> "C"]}
-SyncSet == IF SyncSetName = "ends" THEN {[s |-> x, k |-> kk] : x \in 1..6, kk \in {"C", "E", "U"}} ELSE NoSync
+SyncSet == IF SyncSetName = "ends" THEN {[s |-> x, k |-> kk] : x \in 1..6, kk \in {"C", "E", "U", "V"}} ELSE NoSync
 
 TailSet == IF TailSetName = "cuts" THEN {"Take1", "Throw1"} ELSE {"none"}
 
